@@ -287,7 +287,7 @@ func c08Case(c *core.Case) {
 		c.Evals(1)
 		c.Count("directed:dynamic-block-label-count/" + kind)
 		if errs := val.Type().TestConformance(hcldec.ImpliedType(spec)); len(errs) > 0 {
-			if kind == "map" && want == 2 && val.Type().IsMapType() && val.LengthInt() == 0 {
+			if kind == "map" && want == 2 && val.Type().IsMapType() && val.IsKnown() && val.LengthInt() == 0 {
 				// the adjudicated shape: no block survives, and a two-label map spec answers with the one-level empty map
 				c.Violation("type-nonconformance/BlockMapSpec-multi-label-empty", fmt.Sprintf("decoding a body without usable b blocks with a two-label BlockMapSpec gives %s, implied type is %s", valStr(val), hcldec.ImpliedType(spec).FriendlyName()), nil)
 				return
